@@ -3,11 +3,9 @@
 use std::fs::File;
 use std::io::BufRead;
 use std::io::BufReader;
-use std::ops::Add;
 use std::ops::Index;
 use std::path::Path;
 use std::sync::LazyLock;
-use crate::util::error_exit;
 use regex::Captures;
 use regex::Error;
 use regex::Regex;
@@ -61,17 +59,22 @@ fn update_hgignore_filters(hgignore_filters: &mut Vec<HgignoreFilter>, path: &Pa
 }
 
 pub fn matches_hgignore_filter(hgignore_filters: &Vec<HgignoreFilter>, file_name: &str) -> bool {
-    let mut matched = false;
-
+    // a pattern that matches a directory hides everything below it
     for hgignore_filter in hgignore_filters {
-        let is_match = hgignore_filter.regex.is_match(file_name);
+        let mut candidate = file_name;
+        loop {
+            if hgignore_filter.regex.is_match(candidate) {
+                return true;
+            }
 
-        if is_match {
-            matched = true;
+            match candidate.rfind('/') {
+                Some(idx) if idx > 0 => candidate = &candidate[..idx],
+                _ => break,
+            }
         }
     }
 
-    matched
+    false
 }
 
 enum Syntax {
@@ -166,103 +169,42 @@ fn convert_hgignore_pattern(
 }
 
 static HG_CONVERT_REPLACE_REGEX: LazyLock<Regex> = LazyLock::new(|| {
-    Regex::new("(\\*\\*|\\?|\\.|\\*)").unwrap()
+    Regex::new("(\\*\\*/|\\*\\*|\\?|\\*|[^*?]+)").unwrap()
 });
 
-fn convert_hgignore_glob(glob: &str, file_path: &Path) -> Result<Regex, Error> {
+fn root_prefix(file_path: &Path) -> String {
     #[cfg(not(windows))]
-    {
-        let mut pattern = HG_CONVERT_REPLACE_REGEX
-            .replace_all(&glob, |c: &Captures| {
-                match c.index(0) {
-                    "**" => ".*",
-                    "." => "\\.",
-                    "*" => "[^/]*",
-                    "?" => "[^/]+",
-                    "[" => "\\[",
-                    "]" => "\\]",
-                    "(" => "\\(",
-                    ")" => "\\)",
-                    "^" => "\\^",
-                    "$" => "\\$",
-                    _ => error_exit(".hgignore", "Error parsing pattern"),
-                }
-                .to_string()
-            })
-            .to_string();
-
-        pattern = file_path
-            .to_string_lossy()
-            .to_string()
-            .replace("\\", "\\\\")
-            .add("/([^/]+/)*")
-            .add(&pattern);
-
-        Regex::new(&pattern)
-    }
+    let path = file_path.to_string_lossy().to_string();
 
     #[cfg(windows)]
-    {
-        let mut pattern = HG_CONVERT_REPLACE_REGEX
-            .replace_all(&glob, |c: &Captures| {
-                match c.index(0) {
-                    "**" => ".*",
-                    "." => "\\.",
-                    "*" => "[^\\\\]*",
-                    "?" => "[^\\\\]+",
-                    "[" => "\\[",
-                    "]" => "\\]",
-                    "(" => "\\(",
-                    ")" => "\\)",
-                    "^" => "\\^",
-                    "$" => "\\$",
-                    _ => error_exit(".hgignore", "Error parsing pattern"),
-                }
-                .to_string()
-            })
-            .to_string();
+    let path = file_path.to_string_lossy().to_string().replace("\\", "/");
 
-        pattern = file_path
-            .to_string_lossy()
-            .to_string()
-            .replace("\\", "\\\\")
-            .add("\\\\([^\\\\]+\\\\)*")
-            .add(&pattern);
-
-        Regex::new(&pattern)
-    }
+    regex::escape(path.trim_end_matches('/'))
 }
 
+/// A glob of .hgignore is not rooted: it may match at any depth below the repository root,
+/// but always whole path components (`*.o` is not a prefix match).
+fn convert_hgignore_glob(glob: &str, file_path: &Path) -> Result<Regex, Error> {
+    let pattern = HG_CONVERT_REPLACE_REGEX
+        .replace_all(glob.trim(), |c: &Captures| match c.index(0) {
+            "**/" => "(.*/)?".to_string(),
+            "**" => ".*".to_string(),
+            "*" => "[^/]*".to_string(),
+            "?" => ".".to_string(),
+            literal => regex::escape(literal),
+        })
+        .to_string();
+
+    Regex::new(&format!("^{}/(.*/)?{}$", root_prefix(file_path), pattern))
+}
+
+/// A regular expression of .hgignore is searched for in the path relative to the
+/// repository root (`^` anchors it at the root).
 fn convert_hgignore_regexp(regexp: &str, file_path: &Path) -> Result<Regex, Error> {
-    #[cfg(not(windows))]
-    {
-        let mut pattern = file_path.to_string_lossy().to_string();
-        if !regexp.starts_with("^") {
-            pattern = pattern.add("/([^/]+/)*");
-        }
+    let pattern = match regexp.strip_prefix('^') {
+        Some(anchored) => format!("^{}/(?:{})", root_prefix(file_path), anchored),
+        None => format!("^{}/.*(?:{})", root_prefix(file_path), regexp),
+    };
 
-        if !regexp.starts_with("^") {
-            pattern = pattern.add(".*");
-        }
-
-        pattern = pattern.add(&regexp.trim_start_matches("^"));
-
-        Regex::new(&pattern)
-    }
-
-    #[cfg(windows)]
-    {
-        let mut pattern = file_path.to_string_lossy().to_string();
-        if !regexp.starts_with("^") {
-            pattern = pattern.add("\\\\([^\\\\]+\\\\)*");
-        }
-
-        if !regexp.starts_with("^") {
-            pattern = pattern.add(".*");
-        }
-
-        pattern = pattern.add(&regexp.trim_start_matches("^"));
-
-        Regex::new(&pattern)
-    }
+    Regex::new(&pattern)
 }
